@@ -178,7 +178,7 @@ def call(ex, fr, c, a):
         return ex.make_box(arr.e[p.lo:p.hi])
     if re.fullmatch(r'<(Option<f64>|f64|usize|bool|Option<usize>) as Clone>::clone', c):
         _note(ex, 'Copy::clone'); return ex.deref_read(a[0])
-    if re.search(r'Vec::<.*>::(new|with_capacity|push)|to_vec|Box::<.*>::new|VecDeque', c):
+    if re.search(r'Vec::<.*>::(new|with_capacity|push)|Box::<.*>::new|VecDeque', c):
         ex.allocs.append((tuple(ex.stack), c)); raise Unsupported('allocation ' + c)
 
     # ---------------- slices / iterators
@@ -187,6 +187,17 @@ def call(ex, fr, c, a):
         _note(ex, 'slice::iter'); p = _slice_ptr(ex, a[0]); return Agg('SliceIter', (p, p.lo))
     if c == 'core::slice::<impl [f64]>::len':
         _note(ex, 'slice::len'); p = _slice_ptr(ex, a[0]); return p.hi - p.lo
+    if c in ('core::slice::<impl [f64]>::copy_from_slice', 'core::slice::<impl [f64]>::clone_from_slice'):
+        _note(ex, 'slice::copy_from_slice'); d, s_ = _slice_ptr(ex, a[0]), _slice_ptr(ex, a[1])
+        if (d.hi - d.lo) != (s_.hi - s_.lo):
+            ex.panics.append((ex.pc_term(), '"source slice length does not match destination slice length"', ex.stack[-1]))
+            raise PathDead('copy_from_slice length mismatch')
+        vals = [ex.deref_read(e) for e in ex.slice_elems(s_)]
+        for e, v in zip(ex.slice_elems(d), vals): ex.deref_write(e, v)
+        return UNIT
+    if c == 'core::slice::<impl [f64]>::to_vec' or c == '<[f64] as ToOwned>::to_owned':
+        _note(ex, 'slice::to_vec'); ex.allocs.append((tuple(ex.stack), 'to_vec')); s_ = _slice_ptr(ex, a[0])
+        return Agg('Vec', (Arr([ex.deref_read(e) for e in ex.slice_elems(s_)]),))
     if c == 'core::slice::<impl [f64]>::fill':
         _note(ex, 'slice::fill'); p = _slice_ptr(ex, a[0])
         for e in ex.slice_elems(p): ex.deref_write(e, a[1])
